@@ -747,7 +747,10 @@ func runLLMNR(w *rt.World, res *hx.Result, realServer, realClient bool) *hx.Viol
 				continue
 			}
 			r := q.resp
+			// (judged only when no datagram was dropped: the id of a query whose datagram never reached the wire
+			// observer is unknown, so a collision of two calls' random ids cannot be ruled out -- seen once in 5 M runs)
 			if r != nil && len(r.Questions) > 0 && !(len(r.Answers) == 1 && r.Answers[0].Name == "stray.invalid") &&
+				w.Stats.Probes[rt.PDgramDropped] == 0 &&
 				r.Questions[0].Name == name && r.Questions[0].Type != q.qtype {
 				// (a response about another NAME is left to the id-based checks below: two calls may have drawn the same id)
 				return &hx.Violation{Class: "client_mismatch", Key: "wrong_question",
